@@ -343,6 +343,12 @@ def run(ctx: Ctx) -> None:
     ctx.call(tokenizer_table, "1")
     ctx.call(defaults, "2")
     ctx.call(step_order, "3")
+    from ..kinds import signature_defaults
+
+    ctx.call(signature_defaults, "3d", {
+        "params_parser.py:Reparsable.parse_next_batch": {"base_file": "None", "base_str": "''", "base_dict": "None", "ovrwrt_file": "None", "ovrwrt_str": "''", "ovrwrt_dict": "None"},
+        "cartgraph/graph.py:TestGraph.parse_flat_nodes": {"restriction": "''", "params": "None", "unique": "False"},
+    }, "omitted configuration steps are skipped, not replaced")
     ctx.call(conflict_symmetry, "4")
     ctx.call(error_handling, "5")
 
